@@ -1,0 +1,128 @@
+// Copyright (c) Microsoft Corporation
+// SPDX-License-Identifier: MIT
+
+//! Verification hooks (feature `verif` only): a process-global stand-in for the kernel audit map
+//! and a trace of redirect-policy updates, so that an external harness can attribute connections
+//! and observe policy updates without a loaded eBPF object.
+
+use super::AuditEntry;
+use crate::common::error::{BpfErrorType, Error};
+use crate::common::result::Result;
+use once_cell::sync::Lazy;
+use std::collections::HashMap;
+use std::sync::Mutex;
+
+#[derive(Clone, Copy, Debug, PartialEq, Eq)]
+pub struct Entry {
+    pub logon_id: u64,
+    pub process_id: u32,
+    pub is_admin: i32,
+    pub destination_ipv4: u32, // network byte order, as the kernel program writes it
+    pub destination_port: u16, // network byte order
+}
+
+#[derive(Clone, Debug, PartialEq, Eq)]
+pub enum TraceOp {
+    Lookup { port: u16, found: bool },
+    Remove { port: u16, found: bool },
+}
+
+struct StandIn {
+    active: bool,
+    map: HashMap<u16, Entry>,
+    trace: Vec<TraceOp>,
+    policy_trace: Vec<(String, bool)>,
+}
+
+static STAND_IN: Lazy<Mutex<StandIn>> = Lazy::new(|| {
+    Mutex::new(StandIn {
+        active: false,
+        map: HashMap::new(),
+        trace: Vec::new(),
+        policy_trace: Vec::new(),
+    })
+});
+
+/// Switch the stand-in audit map on; while on, lookup_audit/remove_audit use it exclusively.
+pub fn activate() {
+    STAND_IN.lock().unwrap().active = true;
+}
+
+pub fn insert(source_port: u16, entry: Entry) {
+    STAND_IN.lock().unwrap().map.insert(source_port, entry);
+}
+
+pub fn contains(source_port: u16) -> bool {
+    STAND_IN.lock().unwrap().map.contains_key(&source_port)
+}
+
+pub fn len() -> usize {
+    STAND_IN.lock().unwrap().map.len()
+}
+
+pub fn clear() {
+    let mut s = STAND_IN.lock().unwrap();
+    s.map.clear();
+    s.trace.clear();
+}
+
+pub fn take_trace() -> Vec<TraceOp> {
+    std::mem::take(&mut STAND_IN.lock().unwrap().trace)
+}
+
+pub fn take_policy_trace() -> Vec<(String, bool)> {
+    std::mem::take(&mut STAND_IN.lock().unwrap().policy_trace)
+}
+
+pub(super) fn record_policy_update(endpoint: &str, redirect: bool) {
+    STAND_IN
+        .lock()
+        .unwrap()
+        .policy_trace
+        .push((endpoint.to_string(), redirect));
+}
+
+pub(super) fn lookup(source_port: u16) -> Option<Result<AuditEntry>> {
+    let mut s = STAND_IN.lock().unwrap();
+    if !s.active {
+        return None;
+    }
+    let found = s.map.get(&source_port).copied();
+    s.trace.push(TraceOp::Lookup {
+        port: source_port,
+        found: found.is_some(),
+    });
+    Some(match found {
+        Some(e) => Ok(AuditEntry {
+            logon_id: e.logon_id,
+            process_id: e.process_id,
+            is_admin: e.is_admin,
+            destination_ipv4: e.destination_ipv4,
+            destination_port: e.destination_port,
+        }),
+        None => Err(Error::Bpf(BpfErrorType::MapLookupElem(
+            source_port.to_string(),
+            "stand-in audit map: key not found".to_string(),
+        ))),
+    })
+}
+
+pub(super) fn remove(source_port: u16) -> Option<Result<()>> {
+    let mut s = STAND_IN.lock().unwrap();
+    if !s.active {
+        return None;
+    }
+    let found = s.map.remove(&source_port).is_some();
+    s.trace.push(TraceOp::Remove {
+        port: source_port,
+        found,
+    });
+    Some(if found {
+        Ok(())
+    } else {
+        Err(Error::Bpf(BpfErrorType::MapDeleteElem(
+            source_port.to_string(),
+            "stand-in audit map: key not found".to_string(),
+        )))
+    })
+}
